@@ -530,7 +530,7 @@ impl Sim {
         let mut e = "none".to_string();
         let id;
         match t {
-            "SOrd" | "SInd" => id = c.varint()?,
+            "SOrd" | "SInd" | "SUnr" => id = c.varint()?,
             "SMap" => {
                 id = c.varint()?;
                 let bits = c.varint()?;
@@ -561,7 +561,7 @@ impl Sim {
         let mut e = "none".to_string();
         let id;
         match t {
-            "COrd" => id = c.varint()?,
+            "COrd" | "CUnr" => id = c.varint()?,
             "CMap" => {
                 id = c.varint()?;
                 let bits = c.varint()?;
@@ -877,6 +877,11 @@ impl Sim {
     pub fn drop_s2c(&mut self, c: &str, ch: usize, pos: usize) -> bool {
         let ci = self.ci(c);
         self.clients[ci].s2c[ch].remove(pos).is_some()
+    }
+
+    pub fn drop_c2s(&mut self, c: &str, ch: usize, pos: usize) -> bool {
+        let ci = self.ci(c);
+        self.clients[ci].c2s[ch].remove(pos).is_some()
     }
 
     pub fn deliver_c2s(&mut self, c: &str, ch: usize, pos: usize) -> bool {
